@@ -58,7 +58,7 @@ def case_strategy(draw, tier):
         # two junction-pipe valves in parallel at the same pipe end are not generated here: with one of them closed the two
         # clauses 'a closed valve removes its pipe's edge' and 'graph islands = solver islands' contradict each other
         rec, opts = draw(gen.hyd_case(max_n=9 if tier == "quick" else 20, tight=False, allow_lift=draw(st.booleans()),
-                                      pi_parallel=False))
+                                      pi_parallel=False, pi_every=3))
         opts["mode"] = "hydraulics"
     rec = make_consistent(rec)
     gopts = {}
